@@ -337,6 +337,13 @@ class Exec:
         if t == "json":
             j = z3.Int(name)
             return VJson(j)
+        if t in ("strs?", "strs"):
+            # an iterable of strings or None: truthiness (neither None nor empty) and membership are uninterpreted
+            return VObj("strs", {"_truthy": z3.Bool(name + "_truthy"), "_id": z3.Int(name + "_id")})
+        if t.startswith("list[obj:"):
+            n = z3.Int(name + "_len")
+            st.assume(n >= 0)
+            return VList(z3.Const(name + "_arr", ArrII), n, t[5:-1])
         if t == "obj:registry?":
             tr, isn = z3.Bool(name + "_truthy"), z3.Bool(name + "_isnone")
             st.assume(z3.Implies(isn, z3.Not(tr)))
@@ -716,8 +723,11 @@ class Exec:
         if isinstance(v, VList) and v.ek is None:
             t = ast.unparse(stmt.annotation).replace(" ", "")
             ek = {"list[Node]": "ref", "list[int]": "int", "list[bytes]": "bytes", "Registry": "ref"}.get(t)
+            hint = (self.c.types.get(stmt.target.id, "") if isinstance(stmt.target, ast.Name) else "").replace(" ", "")
+            if hint.startswith("list[obj:"):
+                ek = hint[5:-1]  # the contract says what the list holds (opaque library objects)
             if ek:
-                v = VList(z3.K(I, z3.IntVal(0)) if ek in ("ref", "int") else z3.K(I, z3.StringVal("")), v.n, ek)
+                v = VList(self.typed_empty(ek).arr, v.n, ek)
         self.assign(stmt.target, v, st)
         r = self.flush(st)
         return r + [(st, Flow.NEXT, None)]
@@ -1199,6 +1209,8 @@ class Exec:
         if t in ("Registry",):
             return None
         if t.lower().startswith("list["):
+            if t[5:-1].startswith("obj:"):
+                return t[5:-1]
             return {"int": "int", "bytes": "bytes", "Node": "ref", "str": "str"}.get(t[5:-1])
         return None
 
@@ -1216,7 +1228,7 @@ class Exec:
         return out
 
     def typed_empty(self, ek):
-        arr = z3.K(I, z3.IntVal(0)) if ek in ("int", "ref") else z3.K(I, z3.StringVal(""))
+        arr = z3.K(I, z3.IntVal(0)) if ek in ("int", "ref") or ek.startswith("obj:") else z3.K(I, z3.StringVal(""))
         return VList(arr, z3.IntVal(0), ek, None, z3.StringVal("") if ek in ("int", "bytes") else None)
 
     def assign(self, t, v: V, st: State):
@@ -1770,6 +1782,8 @@ class Exec:
             return z3.Contains(container.z, z3.StrFromCode(x.z)) if x.char is None else z3.Contains(container.z, x.char)
         if isinstance(container, VStr) and isinstance(x, VStr):
             return z3.Contains(container.z, x.z)
+        if isinstance(container, VObj) and container.cls == "strs" and isinstance(x, VStr):
+            return BT.uf(self, "MEMBER_STRS", I, S, B)(container.attrs["_id"], x.z)
         if isinstance(container, VTuple):
             return z3.Or(*[self.equal(x, it, st) for it in container.items]) if container.items else z3.BoolVal(False)
         if isinstance(container, VPy) and isinstance(container.obj, (dict, set, frozenset, list, tuple)):
@@ -1888,6 +1902,8 @@ class Exec:
             if node.attr in obj.attrs:
                 return obj.attrs[node.attr]
             return BT.obj_attr(self, obj, node.attr, st)
+        if isinstance(obj, VObjRef):
+            return BT.objref_attr(self, obj, node.attr, st)
         if isinstance(obj, VPy):
             if hasattr(obj.obj, node.attr):
                 return self.from_py(getattr(obj.obj, node.attr), f"{obj.name}.{node.attr}")
